@@ -7,5 +7,6 @@ for d in benign/${1:-*}/; do
   out=$(tools/mutrun.sh "$P" "$d/patch.diff" quick 2>&1); rc=$(echo "$out" | sed -n 's/^mutrun: check .* exited //p')
   v=$(echo "$out" | grep -c '^VIOLATION'); b=$(echo "$out" | grep -c '^BROKEN')
   echo "BENIGN $n: exit=$rc violations=$v broken=$b"
+  [ -z "$rc" ] && echo "$out" | tail -5 | cut -c1-300
   [ "$rc" != "0" ] && echo "$out" | grep -E '^(VIOLATION|BROKEN|INCONCLUSIVE)' | cut -c1-300 | head -6
 done
